@@ -60,9 +60,9 @@ FxNoDup   == {"etag", "stale"}
 
 Al_full == <<{1, 2, 3, 4, 5, 6, 7}, {8, 9, 10}>>
 Al_q1   == <<{1, 2, 4, 5, 6}, {}>>
-Al_q2   == <<{1, 3, 7}, {8, 10}>>
+Al_q2   == <<{1, 3, 7}, {9, 10}>>
 Al_t1   == <<{1, 2, 3, 4, 5, 6, 7}, {}>>
-Al_t2   == <<{1, 2, 5, 7}, {8, 9, 10}>>
+Al_t2   == <<{1, 3, 5, 7}, {8, 9, 10}>>
 
 \* ---------------------------------------------------------------------------------------
 \* configuration matrix: every optional webhook field set or unset
